@@ -820,7 +820,7 @@ fn fs_scenarios(tier: &str, prefix: &'static str, alphabet: Alpha, moving_clock:
     let frees: &[Option<usize>] = if quick { &[None, Some(1)] } else { &[None, Some(3), Some(2), Some(1), Some(0)] };
     for &k in kinds {
         for &fr in frees {
-            let qd = if prefix == "durable" { 4 } else { 3 };
+            let qd = 4;
             let mut o = base_opts(k, fr, if quick { qd } else { qd + 1 }, alphabet);
             o.moving_clock = moving_clock;
             if alphabet == Alpha::MutateFail && !k.geom().fat32 {
